@@ -160,7 +160,8 @@ class Scratch:
     def __init__(self):
         global _scratch_n
         _scratch_n += 1
-        self.top = os.path.join(scratch_base(), "verif-sim.%d.%d" % (os.getpid(), _scratch_n))
+        # fixed-width name: the length of absolute paths printed by the tools decides where their output buffers flush
+        self.top = os.path.join(scratch_base(), "verif-sim.%07d.%07d" % (os.getpid(), _scratch_n))
         if os.path.exists(self.top):
             shutil.rmtree(self.top)
         os.makedirs(self.top)
@@ -298,6 +299,7 @@ class Event:
 
 
 _ev_re = re.compile(r"^(\d+) (\S+) ?(.*)$")
+_ice_re = re.compile(r"rustc-ice-[0-9T_:\-]+\.txt")
 
 
 def parse_log(text, proc):
@@ -312,7 +314,7 @@ def parse_log(text, proc):
         e.proc = proc
         e.seq = int(m.group(1))
         e.op = m.group(2)
-        rest = m.group(3)
+        rest = _ice_re.sub("rustc-ice.txt", m.group(3))
         e.raw = "%s %s" % (e.op, rest)
         e.mut = " MUT" in rest
         e.fault = "FAULT" in rest or e.op == "fault"
@@ -453,27 +455,48 @@ def run_inv(scratch, inv, extra_env=None):
     stdin_b = file_bytes(stdin) if stdin is not None else None
     res = Result()
     t0 = time.time()
+    # The standard streams are regular files, not pipes: how many read()/write() calls a process needs on a
+    # pipe depends on how fast the other end is (a real, uncontrolled source of nondeterminism under load);
+    # on files every call transfers what was asked.  Partial transfers are injected by the interposer only.
+    out_path = os.path.join(logdir, "stdout")
+    err_path = os.path.join(logdir, "stderr")
+    in_path = os.path.join(logdir, "stdin")
+    if stdin_b is not None:
+        with open(in_path, "wb") as f:
+            f.write(stdin_b)
+    fin = open(in_path, "rb") if stdin_b is not None else subprocess.DEVNULL
+    fout = open(out_path, "wb")
+    ferr = open(err_path, "wb")
     try:
         p = subprocess.Popen(
             [exe] + argv,
             cwd=cwd,
             env=env,
-            stdin=subprocess.PIPE if stdin_b is not None else subprocess.DEVNULL,
-            stdout=subprocess.PIPE,
-            stderr=subprocess.PIPE,
+            stdin=fin,
+            stdout=fout,
+            stderr=ferr,
             start_new_session=True,
         )
     except OSError as e:
         raise HarnessError("cannot start %s in %s: %s" % (exe, cwd, e))
+    finally:
+        if stdin_b is not None:
+            fin.close()
+        fout.close()
+        ferr.close()
     try:
-        out, err = p.communicate(stdin_b, timeout=PROC_TIMEOUT)
+        p.wait(timeout=PROC_TIMEOUT)
     except subprocess.TimeoutExpired:
         try:
             os.killpg(p.pid, signal.SIGKILL)
         except OSError:
             pass
-        out, err = p.communicate()
+        p.wait()
         res.timed_out = True
+    with open(out_path, "rb") as f:
+        out = f.read()
+    with open(err_path, "rb") as f:
+        err = f.read()
     res.wall = time.time() - t0
     res.stdout, res.stderr = out, err
     rc = p.returncode
